@@ -13,7 +13,7 @@ using namespace SimTK;
 using vf::Plan; using vf::Op; using vf::Result; using vf::Rng;
 
 // cells used for probes (uninstrumented side)
-enum { CELL_CALLS_POS = 1, CELL_CALLS_VEL = 2, CELL_RMW = 3, CELL_RMW_PREEMPTED = 4, CELL_INDEX0_SHARED = 5 };
+enum { CELL_CALLS_POS = 1, CELL_CALLS_VEL = 2, CELL_RMW = 3, CELL_RMW_PREEMPTED = 4, CELL_INDEX0_SHARED = 5, CELL_THREW = 6, CELL_ELEM_CALLS = 100 };
 
 struct Coef { int kind; int idx; int src; double a, b, c, d; Vec3 dir, dir2; };
 
@@ -22,6 +22,7 @@ struct HDef {
     bool parallel = false, posOnly = false;
     std::vector<Coef> mob, body;
     int yields = 1;
+    int id = 0; long throwAt = -1;     // fault: throw from the throwAt-th calcForce call (1-based), after the first accumulation
     static double fval(const Coef& k, const State& s, bool posOnly) {
         const Vector& q = s.getQ(); const Vector& u = s.getU();
         double v = k.a * std::sin(k.b * q[k.src % q.size()] + k.c);
@@ -47,19 +48,25 @@ public:
     explicit HForce(const HDef& d) : def(d) {}
     void calcForce(const State& s, Vector_<SpatialVec>& bodyForces, Vector_<Vec3>&, Vector& mobilityForces) const override {
         simv_cell_add(def.posOnly ? CELL_CALLS_POS : CELL_CALLS_VEL, 1);
+        const bool fault = def.throwAt > 0 && simv_cell_add(CELL_ELEM_CALLS + def.id, 1) == def.throwAt;
+        int done = 0;
         for (auto& k : def.mob) {
+            if (fault && done++ == 1) injected();
             double v = HDef::fval(k, s, def.posOnly);
             double tmp = mobilityForces[k.idx];            // load
             preemptible();
             mobilityForces[k.idx] = tmp + v;               // store
         }
         for (auto& k : def.body) {
+            if (fault && done++ == 1) injected();
             double v = HDef::fval(k, s, def.posOnly);
             SpatialVec tmp = bodyForces[k.idx];
             preemptible();
             bodyForces[k.idx] = tmp + SpatialVec(v * k.dir, v * k.dir2);
         }
+        if (fault) injected();
     }
+    static void injected() { simv_cell_set(CELL_THREW, 1); throw std::runtime_error("injected force-evaluation failure"); }
     Real calcPotentialEnergy(const State&) const override { return 0; }
     bool dependsOnlyOnPositions() const override { return def.posOnly; }
     bool shouldBeParallelIfPossible() const override { return def.parallel; }
@@ -86,7 +93,7 @@ struct C17 : vf::Engine {
         execute(p);
     }
 
-    Plan generate(uint64_t seed, const std::string& tier, const std::string&) override {
+    Plan generate(uint64_t seed, const std::string& tier, const std::string& mode) override {
         Rng r(seed); Plan p; p.property = "C17"; p.seed = seed;
         th::genSched(p, r);
         int nb = r.range(2, 5);
@@ -126,6 +133,13 @@ struct C17 : vf::Engine {
             else p.ops.push_back(vf::mkop("realize").set("stage", r.chance(0.6) ? 7 : (r.chance(0.5) ? 8 : r.range(4, 6))));
         }
         p.ops.push_back(vf::mkop("realize").set("stage", 7));
+        if (mode == "faults") {
+            int nf = r.range(1, 2);
+            for (int f = 0; f < nf; ++f) p.faults.push_back(vf::mkop("throw").set("e", (int)r.below(ne)).set("at", r.range(1, 3)));
+            if (r.chance(0.5)) p.setcfg("threads", 1);     // the single-thread path lets the exception reach the caller
+            p.ops.push_back(vf::mkop("setu").set("seed", (long)(r.next() >> 16)));
+            p.ops.push_back(vf::mkop("realize").set("stage", 7));
+        }
         p.setcfg("step_budget", 200000);
         return p;
     }
@@ -133,7 +147,8 @@ struct C17 : vf::Engine {
     Result execute(const Plan& p) override {
         Result res;
         th::begin(p);
-        for (int c = 1; c <= 5; ++c) simv_cell_set(c, 0);
+        for (int c = 1; c <= 6; ++c) simv_cell_set(c, 0);
+        for (int c = 0; c < 64; ++c) simv_cell_set(CELL_ELEM_CALLS + c, 0);
         try { runHistory(p, res); }
         catch (const std::exception& e) { res.fail("exception", "exception", e.what()); }
         res.count("probe_rmw_windows", simv_cell_get(CELL_RMW));
@@ -171,6 +186,7 @@ struct C17 : vf::Engine {
         { std::istringstream is(p.cfg("model", "P0 P1")); std::string tok; while (is >> tok) { char t = tok[0]; nmob += (t == 'U') ? 2 : (t == 'G' || t == 'L') ? 3 : 1; } if (nmob == 0) nmob = 1; }
         // ---- force elements
         std::vector<Elem> elems;
+        int nHarnessPlanned = 0; for (auto& op : p.ops) if (op.kind == "elem" && op.str("kind", "h") == "h") ++nHarnessPlanned;
         for (auto& op : p.ops) {
             if (op.kind != "elem") continue;
             Elem e; e.kind = op.str("kind", "h");
@@ -180,6 +196,9 @@ struct C17 : vf::Engine {
             if (e.kind == "h") {
                 e.harness = true; e.def.parallel = op.num("par", 0) != 0; e.def.posOnly = op.num("pos", 0) != 0; e.def.yields = (int)op.num("yield", 1);
                 e.def.build(er, nmob, nbody);
+                e.def.id = (int)elems.size() % 64;
+                { int hidx = 0; for (auto& pe : elems) if (pe.harness) ++hidx;
+                  for (auto& f : p.faults) if (f.kind == "throw" && nHarnessPlanned > 0 && (int)(f.num("e", 0) % nHarnessPlanned) == hidx) e.def.throwAt = std::max(1L, f.num("at", 1)); }
                 e.force = Force::Custom(forces, new HForce(e.def));
                 e.posOnly = e.def.posOnly; e.parallel = e.def.parallel;
             } else if (e.kind == "tpls") { MobilizedBody& a = anyBody(); MobilizedBody& b = mobods[er.below(nbody + 1)];
@@ -212,8 +231,20 @@ struct C17 : vf::Engine {
                 int st = (int)op.num("stage", 7); st = std::max(4, std::min(8, st));
                 bool wasDyn = s.getSystemStage() >= Stage::Dynamics;
                 simv_cell_set(CELL_CALLS_POS, 0); simv_cell_set(CELL_CALLS_VEL, 0);
-                sys.realize(s, Stage(st));
+                bool threwOut = false;
+                try { sys.realize(s, Stage(st)); }
+                catch (const std::exception& e) { if (!simv_cell_get(CELL_THREW)) throw; threwOut = true; }
                 ++nrealize;
+                if (simv_cell_get(CELL_THREW)) {
+                    // fault fired in this realization: with one thread the exception reached us, with more the
+                    // worker swallowed it. Either way this realization is not checked; recover as every client
+                    // of the library does: change the state (q, so that position-only caches are dropped too)
+                    // and go on. Everything after that must be exact again, for every thread count.
+                    simv_cell_set(CELL_THREW, 0);
+                    res.count(threwOut ? "fault_force_throw_propagated" : "fault_force_throw_swallowed");
+                    s.updQ()[0] += 0.0625;
+                    continue;
+                }
                 if (st >= 7 && !wasDyn) {
                     ++nDyn;
                     int mode = !anyPosOnly ? 0 : (simv_cell_get(CELL_CALLS_POS) > 0 ? 1 : 2);
